@@ -173,9 +173,58 @@ def vec_writer(ctx, chk):
     chk.require(n >= 1, "C12-h/vec-writer", "Vec<T>::serialize_tagged", "no element serialisation found", "", root.sp(), nontrivial=False)
 
 
+def option_writer(ctx, chk):
+    """A present optional field is written exactly as the field itself would be: on every path of
+    `Option<T>::serialize_tagged` on which `self` is `Some(x)` the result is `x.serialize_tagged(tag)` (no condition on
+    the value or its encoding can suppress it - a zero BCD amount has an empty value encoding and is still a present
+    field), and on the `None` path nothing is written."""
+    import pathsym as ps
+    zb = ctx.crate("zvt_builder")
+    bodies = [b for b in zb.bodies.values() if b.raw.get("impl_trait") == "zvt_builder::ZvtSerializerImpl" and
+              b.raw.get("name") == "serialize_tagged" and b.raw["defkind"] == "AssocFn" and
+              ty_str(b.raw.get("impl_self")).startswith("core::option::Option<")]
+    if not chk.require(len(bodies) == 1, "C12-h/option-writer", "Option<T>::serialize_tagged", "optional-field writer not found (%d)" % len(bodies),
+                       "", nontrivial=False):
+        return
+    b = bodies[0]
+    pe = ps.PathEval(b, zb.adts)
+    rets = [i for i in sorted(b.reachable(0)) if b.blocks[i]["term"]["t"] == "return"]
+    n = {0: 0, 1: 0}
+    for r in rets:
+        for path in ps.simple_paths(b, 0, r):
+            env, conds = pe.run(path)
+            which = None
+            for _, ce, taken, listed in conds:
+                c = ps.strip(ps.norm(ce))
+                if c == ("discr", ("pre", 1)) and taken in (0, 1):
+                    which = taken
+                elif c == ("discr", ("pre", 1)) and taken == "else" and len(listed) == 1 and listed[0] in (0, 1):
+                    which = 1 - listed[0]
+            e = ps.strip(ps.norm(env.get(0, ("konst", "no value"))))
+            if which is None:
+                chk.fail("C12-h/option-writer", "Option<T>::serialize_tagged", "a path does not test whether the field is present (result %s)"
+                         % ps.show(e)[:80], b.sp())
+                continue
+            n[which] += 1
+            if which == 1:
+                ok = e[0] == "call" and e[1] == layout.SER and len(e[2]) == 2 and ps.core(e[2][1]) == ("pre", 2) and \
+                    ps.field_chain(ps.core(e[2][0]))[0] == ("pre", 1)
+                chk.require(ok, "C12-h/option-writer", "Option<T>::serialize_tagged (Some)",
+                            "a present optional field is written as %s instead of the field's own serialize_tagged(value, tag)" % ps.show(e)[:100],
+                            "x.serialize_tagged(tag)", b.sp())
+            else:
+                ok = e[0] == "call" and (e[1] in ("alloc::vec::Vec::<T>::new", "core::default::Default::default") or
+                                         (e[1] == "alloc::vec::from_elem" and ps.strip(e[2][1]) == ("konst", 0)))
+                chk.require(ok, "C12-h/option-writer", "Option<T>::serialize_tagged (None)",
+                            "an absent optional field writes %s" % ps.show(e)[:100], "Vec::new()", b.sp())
+    chk.require(n[0] >= 1 and n[1] >= 1, "C12-h/option-writer", "Option<T>::serialize_tagged",
+                "expected a present and an absent path, found %s" % n, "", b.sp(), nontrivial=False)
+
+
 def run(ctx, chk):
     vec_items(ctx, chk)
     vec_writer(ctx, chk)
+    option_writer(ctx, chk)
     optional_untagged(ctx, chk)
     # the declared value encoding of a field is only as good as that codec: Default little-endian and BigEndian big-endian in
     # both directions for every integral type (shared with C17-b)
